@@ -404,11 +404,15 @@ func genFormatCases(r *rand.Rand, tier string, withOracle bool) []Case {
 	}
 	for i := 0; i < nFile; i++ {
 		f := genRaBytes(r, 14)
-		c := Case{Kind: "ra-bytes", Ops: []Op{{"format.file", [][]byte{[]byte(f)}}}}
+		kindF := "ra-bytes"
+		if i%40 == 17 {
+			f, kindF = genBigRa(r), "big-file"
+		}
+		c := Case{Kind: kindF, Ops: []Op{{"format.file", [][]byte{[]byte(f)}}}}
 		if withOracle {
 			c.Oracles = []Op{{"c09.format", [][]byte{[]byte(f)}}}
-			if i < nCli {
-				c.Kind = "ra-bytes+cli"
+			if i < nCli || kindF == "big-file" {
+				c.Kind = kindF + "+cli"
 				c.Oracles = append(c.Oracles, Op{"c09.cli", [][]byte{[]byte(f), []byte(pick(r, []string{"942100", "942100-chain1", "unix-shell", "foo"}))}})
 			}
 		}
